@@ -55,7 +55,7 @@ mod gaps {
     thread_local! { static KLINES: RefCell<Vec<String>> = const { RefCell::new(Vec::new()) }; }
     /// lines for the driver (capacity after a reshape), produced by the last `run`
     pub fn take_lines() -> Vec<String> { KLINES.with(|k| std::mem::take(&mut *k.borrow_mut())) }
-    fn kline(s: String) { KLINES.with(|k| k.borrow_mut().push(s)); }
+    pub fn kline(s: String) { KLINES.with(|k| k.borrow_mut().push(s)); }
 
     pub fn run(c: &Case) -> Vec<String> {
         match c.kind {
